@@ -130,6 +130,18 @@ mut("fill_spare_with_reserve_first", L, """        while self.size < N {
             self.items[slot].write(f());
         }
     }""", ["C06:OCC"])
+mut("from_iter_zip_write_commit_late", L, """        let mut buf = Self::new();
+        iter.into_iter().for_each(|item| {
+            buf.push_back(item);
+        });
+        buf""", """        let mut buf = Self::new();
+        let mut iter = iter.into_iter();
+        let slots = buf.items.iter_mut().zip(&mut iter);
+        buf.size = slots.map(|(slot, item)| slot.write(item)).count();
+        iter.for_each(|item| {
+            buf.push_back(item);
+        });
+        buf""", ["C06:OCC"])
 mut("drain_clear_late", D, """        let buf_size = buf.size;
         buf.size = 0;
 
